@@ -73,7 +73,7 @@ func Scenarios() []*Scn {
 		{Name: "S32-timeout-then-late-continuation", Pool: std, Capacity: 4, Sources: [][]Ev{{S, Ev{JSON: `{"m":"S2"}`, Delay: 600 * time.Millisecond}, Ev{JSON: `{"m":"C3"}`, Delay: 600 * time.Millisecond}, ev(`{"m":"x4"}`)}}, Actions: []string{"join"}, Props: "C15 C04"},
 		// a pooled event object that was a split parent is handed out again for an ordinary record (capacity 1: every event
 		// reuses the one object), with a batching output that skips parents
-		{Name: "S33-split-then-plain-same-object", Pool: std, Capacity: 1, Sources: [][]Ev{{ev(`{"arr":[{"m":"c1"},{"m":"c2"}]}`), ev(`{"k":2}`), ev(`{"k":3}`)}}, Actions: []string{"split"}, BatchCount: 2, Props: "C01 C02 C05"},
+		{Name: "S33-split-then-plain-same-object", Pool: std, Capacity: 1, Sources: [][]Ev{{ev(`{"arr":[{"m":"c1"},{"m":"c2"}]}`), ev(`{"k":2}`), ev(`{"k":3}`)}}, Actions: []string{"split"}, BatchCount: 2, Props: "C01 C02 C05 C04"},
 		{Name: "S35-split-then-plain-same-object-lowmem", Pool: low, Capacity: 1, Sources: [][]Ev{{ev(`{"arr":[{"m":"c1"}]}`), ev(`{"k":2}`)}}, Actions: []string{"split"}, Props: "C01 C02 C05"},
 		// a late put racing the heartbeat (as S23), followed by more events of the same stream: an event that vanished must
 		// not be committed past
@@ -85,6 +85,14 @@ func Scenarios() []*Scn {
 		{Name: "S38-join-then-discard-run", Pool: std, Capacity: 4, Sources: [][]Ev{{ev(`{"m":"S1","d":"1"}`), ev(`{"m":"C2"}`), ev(`{"m":"x3"}`), ev(`{"m":"x4"}`)}}, Actions: []string{"join", "discard"}, Props: "C15 C02 C01 C14"},
 		{Name: "S39-join-then-discard-2runs", Pool: low, Capacity: 4, Sources: [][]Ev{{ev(`{"m":"S1","d":"1"}`), ev(`{"m":"S2"}`), ev(`{"m":"C3"}`), ev(`{"m":"x4","d":"1"}`), ev(`{"m":"x5"}`)}}, Actions: []string{"join", "discard"}, Props: "C15 C02 C14"},
 		{Name: "S40-discard-join-held-then-d1", Pool: std, Capacity: 4, Sources: [][]Ev{{ev(`{"m":"S1"}`), ev(`{"m":"C2"}`), ev(`{"d":"1","m":"x3"}`), ev(`{"m":"x4"}`), ev(`{"d":"1","m":"C5"}`)}}, Actions: []string{"discard", "join"}, Props: "C14 C15"},
+		// antispam through the started pipeline: a source reaches its threshold (the second event is refused), falls silent and
+		// must be admitted again after unban_iterations+1 maintenance rounds (the pipeline's own maintenance goroutine, 1s)
+		{Name: "S41-antispam-common-threshold", Pool: std, Capacity: 4, Antispam: 2, Sources: [][]Ev{{ev(`{"k":1}`), Ev{JSON: `{"k":2}`, Bad: true}, Ev{JSON: `{"k":3}`, Delay: 8 * time.Second}}}, Horizon: 30 * time.Second, Bound: 1, Props: "C20"},
+		{Name: "S42-antispam-rule-threshold-common-0", Pool: std, Capacity: 4, Antispam: -2, AntispamRule: 2, Sources: [][]Ev{{ev(`{"k":1}`), Ev{JSON: `{"k":2}`, Bad: true}, Ev{JSON: `{"k":3}`, Delay: 8 * time.Second}}}, Horizon: 30 * time.Second, Bound: 1, Props: "C20"},
+		// a disabled antispam (common threshold -1) never drops anything, whatever rules are configured
+		{Name: "S43-antispam-off-with-rule", Pool: low, Capacity: 4, Antispam: -1, AntispamRule: 2, Sources: [][]Ev{{ev(`{"k":1}`), ev(`{"k":2}`), ev(`{"k":3}`), Ev{JSON: `{"k":4}`, Delay: 2 * time.Second}}}, Horizon: 30 * time.Second, Bound: 1, Props: "C20"},
+		// split in front of join: a held run, then a parent whose children are all continuation lines, then another line
+		{Name: "S44-split-join-children-continue-held-run", Pool: std, Capacity: 4, Sources: [][]Ev{{ev(`{"m":"S1"}`), ev(`{"arr":[{"m":"C2"},{"m":"C3"}]}`), ev(`{"m":"x4"}`)}}, Actions: []string{"split", "join"}, Props: "C02 C01"},
 		{Name: "S18-cap1-join-hold", Pool: low, Capacity: 1, Sources: [][]Ev{{S, Oth}}, Actions: []string{"join"}, Props: "C04 C05"},
 		{Name: "S19-1proc-2streams", Pool: std, Capacity: 2, SingleProc: true, Sources: [][]Ev{{x, y, x2}}, Props: "C02 C04"},
 		{Name: "S20-exits-of-In", Pool: std, Capacity: 2, MaxEventSize: 40, Sources: [][]Ev{{
